@@ -185,7 +185,7 @@ PROPS = {
                              "B8: the forced-zero write does not change the polynomial denoted (exact arithmetic)", "A1"],
                 not_decided=["termination (bounded)", "constant divisor / exact multiple / degree clauses (bounded)",
                              "floating-point rounding (bounded)", "numpy scalar on the left of / % divmod: open finding"]),
-    "C06": dict(level="other", contracts=["numpoly.derivative", "numpoly.gradient"],
+    "C06": dict(level="other", contracts=["numpoly.derivative", "numpoly.gradient", "numpoly.hessian"],
                 explanation="derivative (real source) is proved for any number of terms and indeterminates, symbolic options, the variable "
                 "designated by position, by name or by an indeterminate polynomial, one or two successive variables: at the point "
                 "where the differentiated attributes are handed to the constructor the obligations establish that they are EXACTLY "
@@ -197,14 +197,19 @@ PROPS = {
                 "derivative of the denoted polynomial' is bridge B7 (definition of pdiff at coefficient level); successive variables "
                 "compose through the proved contract of align_polynomials. gradient is proved: shape (D,)+p.shape and, for an "
                 "arbitrary position d, slice d is derivative(p, names[d])[newaxis] stacked along axis 0, so it holds the partial by "
-                "the d-th indeterminate (stacking contract of concatenate over a list of symbolic length, B6). hessian (needs the "
-                "names of the inner gradient), linearity, product "
+                "the d-th indeterminate (stacking contract of concatenate over a list of symbolic length, B6). hessian is proved from its "
+                "source through the `with` statement: both gradients are taken while retain_names=True is in force (contract of "
+                "global_options as a context manager, proved under C14), the result is the gradient of the gradient of the operand, "
+                "its shape is (D, D)+p.shape, entry (d1, d2) holds the second partial by the d2-th then the d1-th indeterminate, and "
+                "the caller's option set is back in place on exit; that the inner gradient keeps the operand's indeterminate tuple "
+                "under retain_names=True is assumption N1 (bounded clause hessian.* checks it). Linearity, product "
                 "rule and commuting partials on concrete polynomials: bounded run-time checks (conc/checks_c06.py) under all 16 "
                 "settings of the boolean options.",
                 trusted_base=COMMON_TRUSTED + ["contracts of polynomial_from_attributes (C03) and align_polynomials (C04)",
                                                "numpy axioms: boolean row masks, column read/write of an integer matrix, transpose, scalar*array"],
-                assumptions=["B7 (coefficient-level definition of the formal partial derivative)", "A1"],
-                not_decided=["hessian (bounded only)", "negative positions (bounded only)",
+                assumptions=["B7 (coefficient-level definition of the formal partial derivative)", "A1",
+                             "N1: with retain_names=True gradient(p) has p's indeterminate tuple (bounded only)"],
+                not_decided=["negative positions (bounded only)",
                              "ring-level laws of pdiff (linearity, product rule, symmetry): facts of MvPolynomial.pderiv, not re-proved"]),
     "C09": dict(level="other", contracts=["numpoly.ndpoly.__getitem__", "numpoly.ndpoly.__array_finalize__", "numpoly.full", "numpoly.full_like"] + [
                     f"numpoly.{f}" for f in ("reshape", "transpose", "repeat", "tile", "expand_dims", "diag", "diagonal", "atleast_1d",
